@@ -69,7 +69,8 @@ CHECKS = {
         'text': 'Machine-checked proof (Properties/C10.v): the dose rate is dose/duration inside a scheduled interval and '
                 'zero outside; for ANY list of scheduled pulses and ANY time T the integral of the dose rate over [0,T] '
                 '(Coquelicot is_RInt) is the sum of rate x elapsed part, which outside the infusion windows is dose x '
-                'number of completed doses; the regimen table computed by get_dosing_regimen equals the specification '
+                'number of completed doses, is monotone in T, lies between 0 and the prescribed total, is 0 before the '
+                'first pulse and the prescribed total (n x dose for a regimen) after the last; the regimen table computed by get_dosing_regimen equals the specification '
                 '"all dose events with time <= final" for single, finite and indefinite events (axiom-free, Z '
                 'arithmetic); dataset rows are reproduced one to one. Tied to /repo on every run through a substitute '
                 'for myokit.Simulation: exact vm_compute comparison of the myokit protocol and regimen table of real '
